@@ -254,6 +254,8 @@ type stateCtx struct {
 	pagedOnce sync.Once
 	pagedC    *pagedChain
 	bRoot   string // reference state root after b (replica that only ever saw b)
+	root0   util.Uint256 // state root of the genesis block
+	root1   util.Uint256 // state root after block 1
 
 	sp        map[string]*transaction.Transaction // special transactions, see buildSpecials
 	bystander *transaction.Transaction
@@ -309,6 +311,12 @@ func buildState(sc *chainx.Scenario, h []int, md mode) (c *stateCtx, err error) 
 		return nil, err
 	}
 	cv.LocalRoot = sr.Root
+	if r0, err := bc.GetStateRoot(0); err == nil {
+		c.root0 = r0.Root
+	}
+	if r1, err := bc.GetStateRoot(1); err == nil {
+		c.root1 = r1.Root
+	}
 	for _, hb := range hist {
 		for _, t := range hb.Transactions {
 			cv.OnChain[t.Hash()] = hb.Index
@@ -612,29 +620,14 @@ func (c *stateCtx) prepareOpts(md mode, opts chainx.Opts) (*chainx.Node, error) 
 			return nil, fmt.Errorf("replay block %d: %w", i+1, err)
 		}
 	}
-	switch md.Pool {
-	case "own", "bystander":
-		if md.Pool == "own" {
-			for _, t := range c.b.Transactions {
-				if err := n.BC.PoolTx(retx(t)); err != nil {
-					n.Close()
-					return nil, fmt.Errorf("pool own tx: %w", err)
-				}
-			}
-		}
-		if err := n.BC.PoolTx(retx(c.bystander)); err != nil {
-			n.Close()
-			return nil, fmt.Errorf("pool bystander: %w", err)
-		}
+	if err := c.applyPool(n, md); err != nil {
+		n.Close()
+		return nil, err
 	}
 	if md.HdrKnown {
-		hb, err := chainx.DecodeBlock(c.bBytes, c.fam.SRIH)
-		if err == nil {
-			err = n.BC.AddHeaders(&hb.Header)
-		}
-		if err != nil {
+		if err := c.applyHdrKnown(n); err != nil {
 			n.Close()
-			return nil, fmt.Errorf("make header known: %w", err)
+			return nil, err
 		}
 	}
 	if md.Flushed {
@@ -644,6 +637,36 @@ func (c *stateCtx) prepareOpts(md mode, opts chainx.Opts) (*chainx.Node, error) 
 		}
 	}
 	return n, nil
+}
+
+// applyPool pools what the mode wants pooled.
+func (c *stateCtx) applyPool(n *chainx.Node, md mode) error {
+	switch md.Pool {
+	case "own", "bystander":
+		if md.Pool == "own" {
+			for _, t := range c.b.Transactions {
+				if err := n.BC.PoolTx(retx(t)); err != nil {
+					return fmt.Errorf("pool own tx: %w", err)
+				}
+			}
+		}
+		if err := n.BC.PoolTx(retx(c.bystander)); err != nil {
+			return fmt.Errorf("pool bystander: %w", err)
+		}
+	}
+	return nil
+}
+
+// applyHdrKnown delivers the header of the valid next block through AddHeaders.
+func (c *stateCtx) applyHdrKnown(n *chainx.Node) error {
+	hb, err := chainx.DecodeBlock(c.bBytes, c.fam.SRIH)
+	if err == nil {
+		err = n.BC.AddHeaders(&hb.Header)
+	}
+	if err != nil {
+		return fmt.Errorf("make header known: %w", err)
+	}
+	return nil
 }
 
 // control is the replica that never sees a corrupted block.
